@@ -136,7 +136,8 @@ def run_check(prop: Prop, tier, seed, replay=None):
     if getattr(prop, "needs_knobs", False):
         from . import translator_knobs
 
-        tok, tdetail = translator_knobs.regenerate()
+        kparts = prop.needs_knobs if isinstance(prop.needs_knobs, (list, tuple)) else ("op", "builtins", "cli", "default")
+        tok, tdetail = translator_knobs.regenerate(kparts)
         obligations.append(("translator: operator table, builtin names, display specifications regenerated from /repo", tok, tdetail))
 
     # 3. Lean: theorems + driver
